@@ -132,7 +132,7 @@ static std::pair<long, int> run_history(const uint8_t* data, size_t size, bool c
       std::string fake = k == 0 ? BUS_NAME : k == 1 ? ":1.424242" : k == 2 ? h.uniq((c + 1) % nclients) : k == 3 ? "com.vp.Fake"
                        : k == 4 ? own + std::to_string(pick(f, 10))          // names that extend / abbreviate / equal the writer's own name
                        : k == 5 ? own + ".x" : k == 6 ? own.substr(0, own.size() - 1) : k == 7 ? own : own + "a";
-      if (fake.empty()) fake = ":9.9";
+      if (fake.empty() || !is_bus_name(fake)) fake = own + "0";   // (":1.0" minus its last character is not a name: such a frame is invalid and belongs to C01/C10)
       addS(F_SENDER, 's', fake); forged = true;
     }
     if (rare(f, 2)) { int nu = 1 + (int)pick(f, 2); for (int i = 0; i < nu; i++) { Field x; x.code = (uint8_t)f.ConsumeIntegralInRange<int>(11, 255); GenCfg g; g.max_depth = 3; g.allow_h = false; x.v = gen_value_of(f, g, gen_sct(f, g, 1)); fs.push_back(x); } forged = true; }
